@@ -21,7 +21,7 @@ CHECKS = {
    text="All producer-op x consumer-op x wrap-position x chunk-size cells are executed single-threaded, then hundreds of MiB are moved between a producer and a consumer goroutine with seeded op mixes at three GOMAXPROCS values, with peeked slices re-verified before commit; the same workload runs under -race. Held on the executions run. Close cells: a producer parked for space is ended by Close and the consumer drains or holds a peeked slice. Rings are also asked for with sizes that are not powers of two.",
    note="SPSC use as in the service; blocks/wraps/peek counts are reported from the pre-Wait hooks", ref="3/C14"),
  "C15": dict(cat="fault_enumeration", tech="enumerated state x operation x event x timing matrix on the real ring with yield-hook steering; stuck calls decided from goroutine state snapshots; later-calls probe",
-   text="583 applicable cells of the blocking matrix are executed; yield hooks place Close / commits exactly in the check-to-Wait window and before the Lock; afterwards every exported method is probed. A parked call with no enabled waker (two identical all-parked snapshots) is the witness.",
+   text="583 applicable cells of the blocking matrix are executed; yield hooks place Close / commits exactly in the check-to-Wait window and before the Lock; afterwards every exported method is probed. A parked call with no enabled waker (two identical all-parked snapshots) is the witness. Close arriving inside the copy phase of a multi-MiB Read or Write.",
    note="liveness restated as absence of stuck states on the enumerated matrix; deadlines are only watchdogs", ref="3/C15"),
  "C01": dict(cat="exploration", tech="reference-model monitor over wire histories of a real broker (net.Pipe) at synctest quiescence points; payloads carry unique id + CRC",
    text="Thousands of generated sequential histories are executed step by step against the real broker; after every publish, at true quiescence, each subscriber's received copies are compared with what a small subscription model and the MQTT 4.7 matcher allow (1..k copies, QoS multiset, nobody else). Sampling of histories, not exhaustive. Multi-filter UNSUBSCRIBEs also list filters the client does not hold. Half of the clients keep their session across reconnects.",
@@ -33,7 +33,7 @@ CHECKS = {
    text="Retained/plain/clearing publishes, filler traffic beyond two ring sizes and new subscriptions are interleaved; at every new subscription the exact multiset of retained deliveries (flag, QoS, payload identity) is compared with the model. Retained messages that fit must all reach a new subscription even when retained wills larger than the rings sit on sibling topics.",
    note="sequential histories only in this check; concurrent retained updates are exercised by C18's workload", ref="3/C08"),
  "C09": dict(cat="fault_enumeration", tech="fault-sequence monitor: endings x will parameters x session histories, witness client at synctest quiescence, virtual-time keep-alive, chaos conn read faults",
-   text="Every way a connection can end in the harness (7 endings incl. injected read errors and virtual-time keep-alive expiry) is crossed with will parameters and CleanSession histories; the witness must see this connection's will exactly once, or never after DISCONNECT. Also: final bytes delivered together with io.EOF by the transport, and refused CONNECTs naming the victim client id under an authenticator. Also: the connection's processor parked on its own full outgoing ring when the connection ends.",
+   text="Every way a connection can end in the harness (7 endings incl. injected read errors and virtual-time keep-alive expiry) is crossed with will parameters and CleanSession histories; the witness must see this connection's will exactly once, or never after DISCONNECT. Also: final bytes delivered together with io.EOF by the transport, and refused CONNECTs naming the victim client id under an authenticator. Also: the connection's processor parked on its own full outgoing ring when the connection ends. One of two connections that share a session subscribes before the other ends.",
    note="trusted: synctest virtual time; teardown-finished hook events counted per connection", ref="3/C09"),
  "C10": dict(cat="exploration", tech="session-model monitor over wire histories at synctest quiescence (CONNACK flag + probe publishes)",
    text="Generated connect/subscribe/unsubscribe/end histories over three client ids; SessionPresent and the set of active subscriptions after every (re)connect are compared with a model of the state kept by CleanSession=0 connections, using probe publishes and the C01 delivery oracle. Also: sessions of 1000..40000 filters probed the instant the first PINGRESP is read (real time), and resume attempts over a transport whose CONNACK write fails. Every third CONNECT carries a will. A steered race: a second CONNECT of a brand-new identifier arriving between the creation and the initialisation of the first one's session.",
@@ -42,19 +42,19 @@ CHECKS = {
    text="About 1600 first packets (all types, CONNECT field/flag product, malformed variants) under three authenticators, each followed by a tail of effective packets; answers and absence of any effect are checked at quiescence. Every first packet is also sent in two pieces and byte by byte / in three pieces, and with 5 KiB / 64 KiB wills. Groups of acceptable CONNECTs sent at the same moment (same new client id or different ids) must all be answered with CONNACK 0. Connections without an accepted CONNECT must not delay a new client's CONNACK (broker process behind a real listener). Refusals are also sent through the TCP/TLS accept loops and the websocket proxy with the client silent afterwards: its connection must end.",
    note="refusal code set derived from the applicable reasons; policy-dependent ids may go either way", ref="3/C11"),
  "C19": dict(cat="exploration", tech="virtual-time monitor (testing/synctest) of keep-alive expiry and PINGREQ/PINGRESP with a will witness",
-   text="All 84 combinations of K and activity pattern run in virtual time; drop time after the last byte is measured exactly (observed 1.2 K), active clients survive 50 intervals, expiry publishes the will once. Now 138 pattern runs (mid-packet silence, uneven pacing just inside K, pings behind a near-ring-size packet) plus real-time window cells in which the expiry meets a goroutine held in its check-to-Wait window. A successor connection with the same client id that is active must survive the silent one's expiry, and the will published is the silent connection's. A client that stopped reading and filled its own outgoing ring before falling silent must be dropped like any other.",
+   text="All 84 combinations of K and activity pattern run in virtual time; drop time after the last byte is measured exactly (observed 1.2 K), active clients survive 50 intervals, expiry publishes the will once. Now 138 pattern runs (mid-packet silence, uneven pacing just inside K, pings behind a near-ring-size packet) plus real-time window cells in which the expiry meets a goroutine held in its check-to-Wait window. A successor connection with the same client id that is active must survive the silent one's expiry, and the will published is the silent connection's. A client that stopped reading and filled its own outgoing ring before falling silent must be dropped like any other. A silent connection that resumed a stored session.",
    note="virtual clock for the pattern runs; the window cells run in real time with hook events, not deadlines, deciding", ref="3/C19"),
  "C02": dict(cat="exploration", tech="per-packet wire oracle over enumerated and sampled QoS 1/2 scripts at synctest quiescence (acks on the publisher's wire, hand-overs on a QoS 2 subscriber's wire)",
-   text="All scripts up to length 5 over a 6-token alphabet and thousands of longer sampled ones; after every packet the exact acks and hand-overs are compared with the QoS 2 receiver state machine, incl. DUPs with different content and ring-wrapping filler. Plus burst scripts (17..48 exchanges open at once, both roles), sender reconnects, and pipelined bursts of more than three ring sizes written while the subscriber is stalled (acknowledgements and hand-overs compared with the packet order at quiescence). A PUBLISH after the PUBREL of its identifier counts as a new exchange (out-of-order releases included); a quarter of the exchanges start with a copy flagged DUP.",
+   text="All scripts up to length 5 over a 6-token alphabet and thousands of longer sampled ones; after every packet the exact acks and hand-overs are compared with the QoS 2 receiver state machine, incl. DUPs with different content and ring-wrapping filler. Plus burst scripts (17..48 exchanges open at once, both roles), sender reconnects, and pipelined bursts of more than three ring sizes written while the subscriber is stalled (acknowledgements and hand-overs compared with the packet order at quiescence). A PUBLISH after the PUBREL of its identifier counts as a new exchange (out-of-order releases included); a quarter of the exchanges start with a copy flagged DUP. PUBRELs that reach the processor after the sender's connection has gone must still release their messages.",
    note="broker role; client role via scripted peer (see DESIGN)", ref="3/C02"),
  "C12": dict(cat="exploration", tech="event-log oracle over client-API completions vs a scripted TCP peer (global sequence stamps), yield-hook forced ack-before-register interleaving, wire-id monitor on a raw subscriber",
-   text="Completion callbacks and peer acks are stamped from one counter; exactly-once, not-before-ack and completed-by-barrier are checked for generated ack orders; the adverse interleaving is forced deterministically through the verif yield point and the proc.handled event; forwarded packet identifiers in flight are checked on the subscriber's wire. Also: 2..4 clients used by 4..8 goroutines each with all acknowledgements withheld (identifiers in flight distinct, completions exactly once), and identifier wrap-around caused by another client in the process. A quarter of the scripted requests carry no completion function. Requests larger than the client's buffer must return, never complete, and not hold up the others.",
+   text="Completion callbacks and peer acks are stamped from one counter; exactly-once, not-before-ack and completed-by-barrier are checked for generated ack orders; the adverse interleaving is forced deterministically through the verif yield point and the proc.handled event; forwarded packet identifiers in flight are checked on the subscriber's wire. Also: 2..4 clients used by 4..8 goroutines each with all acknowledgements withheld (identifiers in flight distinct, completions exactly once), and identifier wrap-around caused by another client in the process. A quarter of the scripted requests carry no completion function. Requests larger than the client's buffer must return, never complete, and not hold up the others. A PUBREC repeated after its exchange is over is still answered with a PUBREL.",
    note="real TCP/real time with a protocol barrier; one session at a time per child process", ref="3/C12"),
  "C20": dict(cat="exploration", tech="scripted-peer monitor of Client.Connect results and callback dispatch; goroutine-snapshot leak check",
    text="27 CONNACK answers and hundreds of generated subscribe/unsubscribe/inbound-publish sessions; per-request callback invocation counts are compared with the MQTT matcher after a protocol barrier; goroutine snapshots show no library frame after failed Connect / Disconnect. Also: a burst of deliveries followed at once by the end of the stream (callbacks counted at the teardown-finished event). A third of the Subscribe/Unsubscribe calls are held right after writing the request until the acknowledgement was handled. Several Clients of one process sharing a client identifier towards different servers. The CONNACK cases and every fourth dispatch session also run over TLS through ConnectTLS.",
    note="real TCP on 127.0.0.1; leak check by stack frames under the library import path", ref="3/C20"),
  "C16": dict(cat="fault_enumeration", tech="enumerated teardown matrix at synctest quiescence; teardown-finished hook events, witness client, goroutine-snapshot leak check, process-wide deadlock watchdog",
-   text="All 160 cause x buffer-condition x order x will x CleanSession cells are executed against the real broker with really full rings (clients that stop reading); completion of teardown is decided from hook events and goroutine state at quiescence. Since extended to 232 cells (an incomplete near-ring-size message in the inbound ring as a fifth condition), 32 pipelined cells (ending packet behind a held-up delivery) and 36 real-time window cells where the yield hook holds a goroutine between its done-check and Cond.Wait while the connection ends, keep-alive expiry included. A third of the cells have refused ('$') publishes in their history; wills larger than the rings must not keep a teardown from finishing. Condition own-out-full: the connection's own processor parked on its own full outgoing ring; keep-alive expiry must tear it down before anybody closes anything. The fronts workload (TCP/TLS accept loops, websocket proxy) ends with Server.Close and a no-goroutine-left check.",
+   text="All 160 cause x buffer-condition x order x will x CleanSession cells are executed against the real broker with really full rings (clients that stop reading); completion of teardown is decided from hook events and goroutine state at quiescence. Since extended to 232 cells (an incomplete near-ring-size message in the inbound ring as a fifth condition), 32 pipelined cells (ending packet behind a held-up delivery) and 36 real-time window cells where the yield hook holds a goroutine between its done-check and Cond.Wait while the connection ends, keep-alive expiry included. A third of the cells have refused ('$') publishes in their history; wills larger than the rings must not keep a teardown from finishing. Condition own-out-full: the connection's own processor parked on its own full outgoing ring; keep-alive expiry must tear it down before anybody closes anything. The fronts workload (TCP/TLS accept loops, websocket proxy) ends with Server.Close and a no-goroutine-left check. A packet larger than the ring is a sixth cause of teardown.",
    note="bounded time = quiescence reached with all goroutines gone; watchdog expiry without an all-parked snapshot is inconclusive", ref="3/C16"),
  "C17": dict(cat="exploration", tech="strict reference-parser monitor on every subscriber stream + per-(subscriber,publisher,topic,QoS) sequence monitor under concurrent stress, also with the Go race detector",
    text="Dozens of concurrent runs with up to 12 publishers, slow/bursty subscribers, in-process publishers, retained updates and churning clients; every received byte is strict-parsed, every payload CRC-checked, sequence numbers per publisher/topic/QoS must increase. Held on the executed schedules. A stored session is resumed dozens of times while 9..30 KiB messages pour into its subscription: CONNACK first, whole packets only. The same workload also runs through the library's TCP accept loop, TLS accept loop (1.3 and 1.2) and websocket proxy, each publisher ending with a message right before it closes.",
@@ -63,7 +63,7 @@ CHECKS = {
    text="The race detector observes workloads W1-W7; any report with a library frame is a violation keyed by the pair of innermost library functions; overlap counters (e.g. thousands of deliveries entering writeMessage during the target's teardown) are measured in the same processes and must exceed floors. Workload W8 lets two connections of one stored session work off acknowledgements at the same time. Workload W9: several library Clients of one process connecting and disconnecting at once.",
    note="absence of reports on executed schedules only; W7 (same client id reconnecting during teardown) was open finding F-C18-1 until repair b5ad4f5", ref="3/C18"),
  "C05": dict(cat="fault_enumeration", tech="out-of-process broker under enumerated hostile connections with a witness publisher/subscriber pair and an idle observer as monitors; exit status/stderr capture",
-   text="More than a thousand attack connections per quick run (truncations at every offset, field corruptions, mutated packets of all types, oversized packets, forbidden packets, cuts and teardown racing deliveries) against real broker processes over TCP; after each, process liveness, bystander connections and the exact witness sequence are checked. Also in-process: several publishers delivering to a stalled subscriber at the moment it is cut must all survive and keep working. Also: well-framed short CONNECTs, mutated CONNECTs as first packet, and wills larger than the configured rings (a CONNECT bypasses the ring) whose delivery must neither wedge a subscriber nor the teardown. Includes same-identifier churn against a 2000-filter session.",
+   text="More than a thousand attack connections per quick run (truncations at every offset, field corruptions, mutated packets of all types, oversized packets, forbidden packets, cuts and teardown racing deliveries) against real broker processes over TCP; after each, process liveness, bystander connections and the exact witness sequence are checked. Also in-process: several publishers delivering to a stalled subscriber at the moment it is cut must all survive and keep working. Also: well-framed short CONNECTs, mutated CONNECTs as first packet, and wills larger than the configured rings (a CONNECT bypasses the ring) whose delivery must neither wedge a subscriber nor the teardown. Includes same-identifier churn against a 2000-filter session. A retained publish in the window between a subscriber's sudden disconnect and the end of its teardown must be kept for later subscribers.",
    note="the broker is a child process so a crash is observable and contained; every case is logged before it is sent", ref="3/C05"),
 }
 PENDING = {}
